@@ -1,19 +1,22 @@
 (* C12, parser half: for every well-formed structured glob, glob_to_regex writes the expected regex
    text and Oniguruma's reading of that text (parse_bre) is the glob's meaning. *)
-Require Import GlobEngine GlobBT Glob GlobSpec.
+Require Import GlobEngine GlobBT GlobNFA Glob GlobSpec.
 From Coq Require Import List Arith Bool Lia.
 Import ListNotations.
 
 (* ---- class names ---- *)
 Lemma class_names_ok : forall k, k < 14 ->
   class_of (class_name k) class_names = Some k /\
-  forallb (fun c => negb (c =? ch_colon) && negb (c =? ch_rb)) (class_name k) = true.
+  forallb (fun c => negb (c =? ch_colon) && negb (c =? ch_rb)) (class_name k) = true /\
+  list_eqb (class_name k) punct_name = (k =? 7).
 Proof.
   assert (H : forallb (fun k => match class_of (class_name k) class_names with Some k' => k' =? k | None => false end &&
-                               forallb (fun c => negb (c =? ch_colon) && negb (c =? ch_rb)) (class_name k)) (seq 0 14) = true)
+                               forallb (fun c => negb (c =? ch_colon) && negb (c =? ch_rb)) (class_name k) &&
+                               Bool.eqb (list_eqb (class_name k) punct_name) (k =? 7)) (seq 0 14) = true)
     by (vm_compute; reflexivity).
   intros k Hk. rewrite forallb_forall in H. specialize (H k). rewrite in_seq in H.
-  assert (Hin : 0 <= k < 0 + 14) by lia. apply H in Hin. apply andb_true_iff in Hin as [H1 H2]. split; [|exact H2].
+  assert (Hin : 0 <= k < 0 + 14) by lia. apply H in Hin. apply andb_true_iff in Hin as [Hin H3]. apply andb_true_iff in Hin as [H1 H2].
+  split; [|split; [exact H2|now apply eqb_prop]].
   destruct (class_of _ _) as [k'|]; [|discriminate]. apply Nat.eqb_eq in H1. now subst.
 Qed.
 
@@ -44,10 +47,11 @@ Proof. induction a; cbn; auto. Qed.
 Lemma firstn_app_len {A} (a b : list A) : firstn (length a) (a ++ b) = a.
 Proof. induction a; cbn; [reflexivity|]. now f_equal. Qed.
 
-Lemma scan_class f k tail expr : k < 14 ->
+Lemma scan_class f k tail expr : k < 14 -> k <> 7 ->
   scan_bracket (S f) (show_bitem (BClass k) ++ tail) expr = scan_bracket f tail (expr ++ show_bitem (BClass k)).
 Proof.
-  intros Hk. destruct (class_names_ok k Hk) as [_ Hn].
+  intros Hk Hk7. destruct (class_names_ok k Hk) as (_ & Hn & Hp).
+  apply Nat.eqb_neq in Hk7. rewrite Hk7 in Hp.
   cbn [show_bitem]. set (name := class_name k) in *.
   change (([ch_lb; ch_colon] ++ name ++ [ch_colon; ch_rb]) ++ tail) with (ch_lb :: ch_colon :: (name ++ [ch_colon; ch_rb]) ++ tail).
   rewrite <- app_assoc. cbn [scan_bracket].
@@ -57,7 +61,7 @@ Proof.
   rewrite find2_name by exact Hn.
   assert (Hl : (length (name ++ ch_colon :: ch_rb :: tail) <? length name + 2) = false).
   { apply Nat.ltb_ge. rewrite app_length. cbn [length]. lia. }
-  rewrite Hl.
+  rewrite Hl. change (ch_colon =? ch_colon) with true. rewrite firstn_app_len, Hp. cbn [andb].
   replace (name ++ ch_colon :: ch_rb :: tail) with ((name ++ [ch_colon; ch_rb]) ++ tail) by now rewrite <- app_assoc.
   replace (length name + 2) with (length (name ++ [ch_colon; ch_rb])) by (rewrite app_length; reflexivity).
   rewrite skipn_app_len, firstn_app_len. f_equal.
@@ -86,7 +90,8 @@ Proof.
       destruct fuel; [lia|]. rewrite scan_plain by reflexivity.
       destruct fuel; [lia|]. rewrite scan_plain by assumption.
       rewrite IH by (try assumption; lia). now rewrite <- !app_assoc.
-    + apply Nat.ltb_lt in Hb. destruct fuel; [lia|]. rewrite scan_class by assumption.
+    + apply andb_true_iff in Hb as [Hb Hb7]. apply Nat.ltb_lt in Hb. apply negb_true_iff, Nat.eqb_neq in Hb7.
+      destruct fuel; [lia|]. rewrite scan_class by assumption.
       pose proof (show_bitem_len (BClass k)). rewrite IH by (try assumption; lia). now rewrite <- !app_assoc.
 Qed.
 
@@ -140,7 +145,7 @@ Proof.
     change (ch_minus =? ch_minus) with true. rewrite H1, H2. cbn [andb negb].
     apply Nat.leb_le in Hle. assert (Hlt : (hi <? lo) = false) by (apply Nat.ltb_ge; exact Hle). rewrite Hlt.
     apply after_item. exact Ht.
-  - apply Nat.ltb_lt in Hb. destruct (class_names_ok k Hb) as [Hc Hn].
+  - apply andb_true_iff in Hb as [Hb _]. apply Nat.ltb_lt in Hb. destruct (class_names_ok k Hb) as (Hc & Hn & _).
     cbn [show_bitem]. set (name := class_name k) in *.
     change (([ch_lb; ch_colon] ++ name ++ [ch_colon; ch_rb]) ++ tail) with (ch_lb :: ch_colon :: (name ++ [ch_colon; ch_rb]) ++ tail).
     rewrite <- app_assoc. change ([ch_colon; ch_rb] ++ tail) with (ch_colon :: ch_rb :: tail).
@@ -345,7 +350,7 @@ Theorem glob_match_is_fnmatch g ci s : forallb wf_item g = true ->
   glob_match ci (show g) s = if fn (sem ci g) s then 1 else 0.
 Proof.
   intros Hwf. unfold glob_match. rewrite glob_to_regex_text by assumption.
-  rewrite parse_bre_meaning by assumption. now rewrite is_match_fnmatch.
+  rewrite parse_bre_meaning by assumption. now rewrite nfa_fnmatch.
 Qed.
 
 (* a pattern ending in an unescaped backslash matches nothing *)
@@ -367,5 +372,5 @@ Proof.
   replace (S (length (tr g ++ [ch_bs; ch_lb]))) with (length g + S (S (S (length (tr g) - length g)))) by (rewrite app_length; cbn [length]; lia).
   rewrite parse_bre_prefix by (try assumption; reflexivity).
   change (parse_bre (S (S (S (length (tr g) - length g)))) ci [ch_bs; ch_lb]) with (Some [RSingle (ci_eq ci ch_lb)]).
-  cbn [option_map]. now rewrite is_match_fnmatch.
+  cbn [option_map]. now rewrite nfa_fnmatch.
 Qed.
